@@ -142,7 +142,7 @@ theorem St2.init {s0 g0} (hS : SimG s0 g0) (hL : SimL s0 g0) :
     · intro key hk; exact absurd hk (List.not_mem_nil)
     · intro p hp; exact absurd hp (List.not_mem_nil)
   · refine { next := rfl, extEq := rfl, ids := ?_, extPt := ?_, extLt := hL.extLt, extNZ := hL.extNZ,
-             extND := hL.extND, labels := ?_, labelsInt := hL.labelsInt, labelsLt := hL.labelsLt, addOK := ?_,
+             extND := hL.extND, extIdND := hL.extIdND, labels := ?_, labelsInt := hL.labelsInt, labelsLt := hL.labelsLt, addOK := ?_,
              delOK := ?_, createdLid := ?_, deadLt := hL.deadLt, small := hL.small }
     · intro i c hc; exact absurd hc (by show ([] : List (Nat × Nat × Nat))[i]? ≠ some c; simp)
     · intro n
